@@ -150,4 +150,13 @@ PROPS["C16"] = {
     "assumptions": ["single faults"],
 }
 
+PROPS["C20"] = {
+    "suites": ["self_update"],
+    "trusted": ["go-selfupdate, go-github, semver, TLS, archive formats and the atomic replacement of the executable are not modelled: DetectLatest (with validator), Release.LessOrEqual, the two UpdateTo entry points, ChecksumValidator.findChecksum and SHA-256 are oracles with stated behaviour (section variables of the theorems; the line format of the checksum file is transcribed as recorded_goreleaser), validated on every run against the real library through a local TLS-intercepting stand-in for api.github.com/github.com (HTTPS_PROXY + SSL_CERT_FILE, CA generated at run time) driving the UNMODIFIED binary built from /repo",
+                "translator: which UpdateTo entry point Updater calls is read from the Go AST (Gen/Consts.v self_update_validates)"],
+    "level_text": "Kernel-checked theorems about Model/SelfUpdate.v for all catalogues, running versions, version orders and fault patterns (failing listing, failing downloads, corrupt archive): whatever is installed is the decompressed asset for this platform of a published non-draft release that is not <= the running version (an incomparable version counts as older) and - provided the code installs through the validating updater, which is regenerated from the source and pinned - its bytes hash to the value the release's checksum file records for it; in every other situation the executable is byte-identical; a checksum mismatch, a missing checksum file and a not-newer release never install. The defect this check found (install through the non-validating package-level UpdateTo) is repaired in /repo (fix: 1c39816); its model witness is kept. Tied by pins and by runs of the unmodified binary (three running versions) against generated catalogues served by the local stand-in: sha256 of the executable copy before/after, exit status, requests; compared with the model and with the property directly.",
+    "level_note": "Trusted: Coq kernel, translator, extraction, harness, and the oracle models of the library calls named above. Library internals, TLS and the atomicity of the replacement are exercised, not proved.",
+    "assumptions": ["semver precedence as implemented by Masterminds/semver (used as ranks)", "linux/amd64 sandbox"],
+}
+
 NOT_APPLICABLE = {}
